@@ -578,6 +578,7 @@ func (c *Cholesky) SymRankOne(orig *Cholesky, alpha float64, x Vector) (ok bool)
 			panic(ErrShape)
 		}
 		c.chol.Copy(orig.chol)
+		c.cond = orig.cond
 	}
 
 	if alpha == 0 {
